@@ -6,6 +6,9 @@ From Verif Require Import Base.Prelude Base.IntCodec Model.Placement Proofs.Plac
 From Coq Require Import ZifyBool ZifyNat ZifyN.
 Local Open Scope Z_scope.
 
+Notation l2m l := (@list_to_map bytes bytes store _ _ l) (only parsing).
+Notation lkp m k := (@lookup bytes bytes store _ k m) (only parsing).
+
 (** * Entries of one vector: key = prefix ++ counter, counters n+1, n+2, .. *)
 
 Definition ents (P : bytes) (n : nat) (keys : list bytes) : list (bytes * bytes) :=
@@ -104,6 +107,23 @@ Proof.
     apply (ents_keys_lt P n keys) in Hin; [|lia]. by apply bytes_lt_irrefl in Hin.
 Qed.
 
+Lemma uw_some_l v (o : option bytes) : union_with (fun x _ : bytes => Some x) (Some v) o = Some v.
+Proof. by destruct o. Qed.
+Lemma uw_none_l (o : option bytes) : union_with (fun x _ : bytes => Some x) None o = o.
+Proof. by destruct o. Qed.
+
+Lemma uw_none_r (o : option bytes) : union_with (fun x _ : bytes => Some x) o None = o.
+Proof. by destruct o. Qed.
+
+Lemma opt_eta {A} (o : option A) : match o with Some v => Some v | None => None end = o.
+Proof. by destruct o. Qed.
+
+Lemma bytes_lt_single (a b : N) : (a < b)%N -> bytes_lt [a] [b].
+Proof.
+  intros Hab. split; [|intros [= ->]; lia]. cbn [bytes_leb].
+  by rewrite (proj2 (N.ltb_lt a b) Hab).
+Qed.
+
 (** * The move loop of the commit *)
 
 Definition mv (kv : bytes * bytes) : bytes * bytes := (pN :: tail (fst kv), snd kv).
@@ -125,7 +145,7 @@ Proof.
     assert (Hkn1 : (pN :: r) ∉ map fst L).
     { intros ([k' v'] & Hk' & Hin)%elem_of_list_fmap. simpl in Hk'.
       destruct (Hh' _ Hin) as [r' Hr']. simpl in Hr'. subst k'. discriminate. }
-    assert (Hkn2 : (list_to_map (map mv L) : store) !! (pN :: r) = None).
+    assert (Hkn2 : @lookup bytes bytes store _ (pN :: r) (l2m (map mv L)) = None).
     { apply not_elem_of_list_to_map. intros Hin.
       apply elem_of_list_fmap in Hin as (kv' & Hk' & Hin).
       apply elem_of_list_fmap in Hin as ([k2 v2] & -> & Hin2).
@@ -135,7 +155,7 @@ Proof.
     apply map_eq. intros x. rewrite !lookup_union, !del_all_lookup.
     destruct (decide (x = pN :: r)) as [->|Hne].
     + rewrite Hkn2, lookup_insert. rewrite bool_decide_eq_false_2 by exact Hkn1.
-      rewrite lookup_insert. reflexivity.
+      rewrite lookup_insert. by destruct (delete _ _ !! _).
     + rewrite !lookup_insert_ne by congruence. reflexivity.
 Qed.
 
@@ -166,7 +186,7 @@ Proof.
   { intros [k v] [_ Hp]%HL. apply is_prefix_app in Hp as [r ->]. simpl. eauto. }
   assert (Hnd : NoDup (map fst L)) by apply NoDup_sfind_keys.
   apply (move_loop_inv L s1 s2 Hh Hnd) in H. subst s2.
-  assert (HM : forall y v, (list_to_map (map mv L) : store) !! y = Some v ->
+  assert (HM : forall y v, (l2m (map mv L)) !! y = Some v ->
              exists k, (k, v) ∈ L /\ y = pN :: tail k).
   { intros y v Hy. apply elem_of_list_to_map_2 in Hy.
     apply elem_of_list_fmap in Hy as ([k v'] & Heq & Hin). unfold mv in Heq. simpl in Heq.
@@ -179,23 +199,25 @@ Proof.
     - rewrite !map_map. reflexivity. }
   rewrite lookup_union. fold (del_all (map fst L) s1). unfold L at 2. rewrite del_sfind_lookup. fold L.
   destruct (is_prefix (pU :: cid) x) eqn:EU.
-  - destruct ((list_to_map (map mv L) : store) !! x) as [v|] eqn:EM; [|reflexivity].
+  - destruct (lkp (l2m (map mv L)) x) as [v|] eqn:EM; [|reflexivity].
     destruct (HM _ _ EM) as (k & _ & ->). simpl in EU. discriminate.
   - destruct (is_prefix (pN :: cid) x) eqn:EN.
     + apply is_prefix_app in EN as [r ->]. simpl.
       destruct (s1 !! (pU :: cid ++ r)) as [v|] eqn:E1.
       * assert (Hin : (pU :: cid ++ r, v) ∈ L) by (apply HL; split; [exact E1|apply (is_prefix_refl_app (pU :: cid))]).
-        rewrite (elem_of_list_to_map_1 (map mv L) (pN :: cid ++ r) v HMnd); [reflexivity|].
+        rewrite (elem_of_list_to_map_1 (map mv L) (pN :: cid ++ r) v HMnd); [apply uw_some_l|].
         apply elem_of_list_fmap. exists (pU :: cid ++ r, v). split; [reflexivity|exact Hin].
-      * destruct ((list_to_map (map mv L) : store) !! (pN :: cid ++ r)) as [v|] eqn:EM.
+      * destruct (lkp (l2m (map mv L)) (pN :: cid ++ r)) as [v|] eqn:EM.
         -- destruct (HM _ _ EM) as (k & Hk & Heq). destruct (Hh _ Hk) as [r' Hr']. simpl in Hr'. subst k.
-           simpl in Heq. injection Heq as <-. apply HL in Hk as [Hk _]. congruence.
-        -- simpl. destruct (s1 !! (pN :: cid ++ r)); reflexivity.
-    + destruct ((list_to_map (map mv L) : store) !! x) as [v|] eqn:EM.
+           simpl in Heq. injection Heq as <-. apply HL in Hk as [Hk _].
+           pose proof (eq_trans (eq_sym Hk) E1) as Hc. discriminate Hc.
+        -- apply uw_none_l.
+    + destruct (lkp (l2m (map mv L)) x) as [v|] eqn:EM.
       * destruct (HM _ _ EM) as (k & Hk & ->). apply HL in Hk as [_ Hp].
-        apply is_prefix_app in Hp as [r ->]. simpl in EN. rewrite (is_prefix_refl_app cid r) in EN.
-        rewrite N.eqb_refl in EN. discriminate.
-      * simpl. destruct (s1 !! x); reflexivity.
+        apply is_prefix_app in Hp as [r ->].
+        pose proof (is_prefix_refl_app (pN :: cid) r) as Hc.
+        pose proof (eq_trans (eq_sym Hc) EN) as Hd. discriminate Hd.
+      * apply uw_none_l.
 Qed.
 
 (** * The REP loop *)
@@ -280,16 +302,23 @@ Proof.
   replace (Z.of_nat i0 + 1) with (Z.of_nat (S i0)) by lia. apply IH; auto. lia.
 Qed.
 
+Lemma is_prefix_cons_inv c p x :
+  is_prefix (c :: p) x = true -> exists x', x = c :: x' /\ is_prefix p x' = true.
+Proof.
+  destruct x as [|d x]; [discriminate|]. cbn [is_prefix].
+  intros [Hc Hp]%andb_true_iff. apply N.eqb_eq in Hc as <-. eauto.
+Qed.
+
 (** * The commit, key by key (no invariant needed: the call is assumed to halt) *)
 
 Definition commit_lookup (s : store) (cid : bytes) (l : list Z) (x : bytes) : option bytes :=
   if is_prefix (pU :: cid) x then None
   else if is_prefix (pN :: cid) x then s !! (pU :: tail x)
-  else if is_prefix (pR :: cid) x then (list_to_map (rents cid 0 l) : store) !! x
+  else if is_prefix (pR :: cid) x then (l2m (rents cid 0 l)) !! x
   else s !! x.
 
 Lemma rents_prefix cid i0 l x v :
-  (list_to_map (rents cid i0 l) : store) !! x = Some v -> is_prefix (pR :: cid) x = true.
+  (l2m (rents cid i0 l)) !! x = Some v -> is_prefix (pR :: cid) x = true.
 Proof.
   intros H. apply elem_of_list_to_map_2, elem_of_rents in H as (t & r & -> & _).
   apply (is_prefix_refl_app (pR :: cid)).
@@ -326,22 +355,22 @@ Proof.
   split; [exact Halpha|]. split; [exact Hcid|]. split; [exact Hrok|]. split; [reflexivity|].
   intros x. unfold commit_lookup. rewrite lookup_union, H3, H2.
   destruct (is_prefix (pU :: cid) x) eqn:EU.
-  - destruct x as [|c x]; [discriminate|]. simpl in EU. apply andb_true_iff in EU as [->%N.eqb_eq _].
+  - apply is_prefix_cons_inv in EU as (x' & -> & EU). rename x' into x.
     rewrite (is_prefix_cons_ne pR pU) by done.
-    destruct ((list_to_map (rents cid 0 (default [] reps)) : store) !! (pU :: x)) as [v|] eqn:EM; [|reflexivity].
+    destruct (lkp (l2m (rents cid 0 (default [] reps))) (pU :: x)) as [v|] eqn:EM; [|reflexivity].
     apply rents_prefix in EM. rewrite is_prefix_cons_ne in EM by done. discriminate.
   - destruct (is_prefix (pN :: cid) x) eqn:EN.
-    + destruct x as [|c x]; [discriminate|]. simpl in EN. apply andb_true_iff in EN as [->%N.eqb_eq EN].
+    + apply is_prefix_cons_inv in EN as (x' & -> & EN). rename x' into x. clear EU.
       rewrite (is_prefix_cons_ne pR pN) by done.
-      destruct ((list_to_map (rents cid 0 (default [] reps)) : store) !! (pN :: x)) as [v|] eqn:EM.
+      destruct (lkp (l2m (rents cid 0 (default [] reps))) (pN :: x)) as [v|] eqn:EM.
       { apply rents_prefix in EM. rewrite is_prefix_cons_ne in EM by done. discriminate. }
       simpl. rewrite !H1. rewrite (is_prefix_cons_ne pN pU) by done.
-      rewrite is_prefix_cons_same, EN. by destruct (s !! (pU :: x)).
+      rewrite is_prefix_cons_same, EN. rewrite uw_none_l. apply opt_eta.
     + destruct (is_prefix (pR :: cid) x) eqn:ER.
-      * by destruct (_ !! x).
-      * destruct ((list_to_map (rents cid 0 (default [] reps)) : store) !! x) as [v|] eqn:EM.
+      * apply uw_none_r.
+      * destruct (lkp (l2m (rents cid 0 (default [] reps))) x) as [v|] eqn:EM.
         { apply rents_prefix in EM. congruence. }
-        simpl. rewrite H1, EN. by destruct (s !! x).
+        rewrite uw_none_l, H1, EN. reflexivity.
 Qed.
 
 (** * The specification-level well-formedness and the storage invariant *)
@@ -413,9 +442,7 @@ Proof.
       apply elem_of_rents in Hin as (t & r' & -> & Ht & _). apply lookup_lt_Some in Ht. simpl in Hl.
       change (pR :: cid ++ [N.of_nat i0]) with ((pR :: cid) ++ [N.of_nat i0]).
       change (pR :: cid ++ [N.of_nat (S i0 + t)]) with ((pR :: cid) ++ [N.of_nat (S i0 + t)]).
-      apply bytes_lt_app_l. split.
-      - simpl. destruct (N.ltb_spec (N.of_nat i0) (N.of_nat (S i0 + t))); [reflexivity|lia].
-      - intros [= He]. lia. }
+      apply bytes_lt_app_l, bytes_lt_single. lia. }
     apply H. simpl. lia.
   - intros k val. rewrite elem_of_rents. split.
     + intros (t & r & -> & Ht & ->). split.
